@@ -320,6 +320,11 @@ func body(c *sched.Ctl, cs Case, v *ev.Verdict) {
 			byLabel[w.label] = w
 			hm.Unlock()
 			ctx, cancel := context.WithCancel(context.Background())
+			if w.id%3 == 0 {
+				// cancelled with a cause: the context's error is still context.Canceled
+				cctx, ccancel := context.WithCancelCause(context.Background())
+				ctx, cancel = cctx, func() { ccancel(fmt.Errorf("cancel-cause-%d", w.id)) }
+			}
 			w.cancel = cancel
 			if op.Pre {
 				cancel()
